@@ -1,8 +1,9 @@
 (* C18 - layout/utils.py: _ExplodedList, the list type explode_text_fragments
    returns ("as soon as items are added or the list is extended, the new items
    are automatically exploded as well").  Definitions only; the code as it is
-   in /repo, plus the two functions as they would be after
-   fixes/C18-exploded-list-index-iadd.patch (suffix _patched). *)
+   in /repo, plus the SPECIFICATION the two deviating methods are measured
+   against: the semantics of a plain Python list (suffix _listsem; it is also
+   what fixes/C18-exploded-list-index-iadd.patch would make them do). *)
 From Coq Require Import ZArith List Bool.
 From PTK Require Import Lib.Sx Lib.Py Model.C18_Fragments Model.C18_Ansi.
 Import ListNotations.
@@ -35,14 +36,14 @@ Definition el_iadd (l : list frag) (vs : list frag) : list frag := l ++ vs.
 (* explode_text_fragments(lst) for an _ExplodedList: returned as it is *)
 Definition explode_exploded (l : list frag) : list frag := l.
 
-(* after the proposed patch: negative indices count from the end, an index
-   outside the list raises IndexError (None), += explodes *)
-Definition setitem_int_patched (l : list frag) (i : Z) (v : frag) : option (list frag) :=
+(* plain-list semantics of `lst[i] = v` / `lst += vs` (with exploding): negative
+   indices count from the end, an index outside the list raises IndexError (None) *)
+Definition setitem_int_listsem (l : list frag) (i : Z) (v : frag) : option (list frag) :=
   let n := len l in
   let j := if i <? 0 then i + n else i in
   if (j <? 0) || (n <=? j) then None
   else Some (list_set_slice l j (j + 1) (explode [v])).
-Definition el_iadd_patched (l : list frag) (vs : list frag) : list frag := el_extend l vs.
+Definition el_iadd_listsem (l : list frag) (vs : list frag) : list frag := el_extend l vs.
 
 Inductive elop :=
 | ESetInt (i : Z) (v : frag)
